@@ -512,7 +512,33 @@ func genSMServer(r *RNG, n int, op string, emit func(string)) {
 				if r.Chance(30) {
 					c = randomCER(r)
 				}
-				ss = append(ss, hex.EncodeToString(c.bytes()))
+				// what this peer sends: its CER and then application traffic; some peers skip the
+				// CER, or send everything in one segment (the handshake of ANOTHER connection must
+				// not open the door for them)
+				serial := uint32(200 + 50*j)
+				var script [][]byte
+				if !r.Chance(30) {
+					script = append(script, c.bytes())
+				}
+				for q, nq := 0, r.Intn(4); q < nq; q++ {
+					script = append(script, histMessage(r, &serial))
+				}
+				if len(script) == 0 {
+					script = append(script, c.bytes())
+				}
+				var segs []string
+				if r.Chance(30) {
+					var one []byte
+					for _, b := range script {
+						one = append(one, b...)
+					}
+					segs = []string{hex.EncodeToString(one)}
+				} else {
+					for _, b := range script {
+						segs = append(segs, hex.EncodeToString(b))
+					}
+				}
+				ss = append(ss, strings.Join(segs, "|"))
 			}
 			emit(fmt.Sprintf("smserver multi cfg=%d locals=%s regs=%s segs=%s", []int{0, 0, 2, 1}[r.Intn(4)], strings.Join(ls, ","), genRegs(r), strings.Join(ss, "^")))
 		}
